@@ -99,6 +99,12 @@ fn c07_body(lay: Layout, msg: &mut [u8], split: Split) -> Obs {
     let deadline_s: i64 = kani::any();
     let deadline_n: u32 = kani::any();
     kani::assume(deadline_s >= 0 && deadline_s < (1 << 40) && deadline_n < 1_000_000_000);
+    if split == Split::KfAuthnakKiss {
+        // the counterexample is replayed natively against the real monotonic clock: keep the
+        // deadline of the pending request in the far future so that the replay does not depend on
+        // the uptime of the machine
+        kani::assume(deadline_s >= (1 << 36));
+    }
     let uid_match: bool = kani::any();
     let origin_match: bool = kani::any();
     let authentic: bool = lay.authentic;
@@ -341,6 +347,24 @@ macro_rules! c07_genuine {
         }
     };
 }
+/// genuine authenticator without encrypted fields, a cookie / Bloom chunk in clear next to it
+macro_rules! c07_genuine_nocookie {
+    ($name:ident, $lay:expr) => {
+        nharness! {
+            #[kani::unwind(8)]
+            #[kani::stub(core::str::from_utf8, crate::common::from_utf8_ascii_model)]
+            #[kani::stub(core::slice::ascii::is_ascii, crate::common::is_ascii_model)]
+            fn $name() {
+                const L: Layout = $lay;
+                let mut msg: [u8; L.total() + 1] = kani::any();
+                let o = c07_body(L, &mut msg[..L.total()], Split::Main);
+                assert!(!o.got_cookie, "a cookie in clear is never stored");
+                kani::cover!(o.processed, "a genuine response is processed");
+                kani::cover!(o.replay, "genuine but not bound to the pending request (replay)");
+            }
+        }
+    };
+}
 /// templates with an authenticator field that is a forgery
 macro_rules! c07_forged {
     ($name:ident, $lay:expr) => {
@@ -398,13 +422,16 @@ const fn lay(v5: bool, b15: u8, authentic: bool, y_len: usize, has_nts: bool, in
 
 // NTPv4
 c07_plain!(c07_v4_plain, lay(false, 0, false, 0, false, 0, 28));
-c07_genuine!(c07_v4_genuine, lay(false, 0, true, 16, true, 1, 28));
-c07_forged!(c07_v4_forged, lay(false, 0, false, 16, true, 1, 28));
+c07_genuine!(c07_v4_genuine, lay(false, 0, true, 0, true, 1, 0));
+c07_genuine_nocookie!(c07_v4_genuine_pre, lay(false, 0, true, 16, true, 0, 0));
+c07_genuine_nocookie!(c07_v4_genuine_post, lay(false, 0, true, 0, true, 0, 28));
+c07_forged!(c07_v4_forged, lay(false, 0, false, 0, true, 1, 0));
 c07_genuine!(c07_v4_genuine2, lay(false, 0, true, 0, true, 2, 0));
 // NTPv5 (flag byte: 0x04 = authnak, 0x01 = synchronized)
 c07_plain!(c07_v5_plain_authnak, lay(true, 0x04, false, 0, false, 0, 16));
 c07_plain!(c07_v5_plain_sync, lay(true, 0x01, false, 0, false, 0, 16));
-c07_genuine!(c07_v5_genuine, lay(true, 0x01, true, 20, true, 1, 20));
-c07_forged!(c07_v5_forged, lay(true, 0x04, false, 20, true, 1, 20));
-c07_genuine!(c07_v5_genuine2, lay(true, 0x01, true, 0, true, 2, 0));
+c07_genuine!(c07_v5_genuine, lay(true, 0x01, true, 0, true, 1, 0));
+c07_genuine_nocookie!(c07_v5_genuine_pre, lay(true, 0x01, true, 20, true, 0, 0));
+c07_genuine_nocookie!(c07_v5_genuine_post, lay(true, 0x01, true, 0, true, 0, 20));
+c07_forged!(c07_v5_forged, lay(true, 0x04, false, 0, true, 1, 0));
 c07_kf!(c07_v5_plain_kf_authnak_kiss, lay(true, 0x04, false, 0, false, 0, 0));
